@@ -4,7 +4,7 @@ using namespace vf;
 
 namespace {
 
-struct Grp { int size; bool en; int type; uint32_t off; uint8_t *ram; uint8_t *def; CO_PARA *pg; };
+struct Grp { int size; bool en; uint32_t flags = 0; int type; uint32_t off; uint8_t *ram; uint8_t *def; CO_PARA *pg; };
 
 struct Run {
   Ctx &c; Tape &t; long fault_at;      // global NVM call index (1-based) that returns a short count, 0 = none
@@ -22,14 +22,14 @@ void run_history(Run &R, int maxops) {
   uint32_t off = c.t.below(8);
   SplitMix iv(c.t.u16());
   for (int i = 1; i <= ng; i++) {
-    g[i].size = 1 + (int)c.t.below(c.t.coin() ? 8 : 64); g[i].en = c.t.below(4) != 0; g[i].type = 1 + (int)c.t.below(2); g[i].off = off; off += g[i].size + c.t.below(3);
+    g[i].size = 1 + (int)c.t.below(c.t.coin() ? 8 : 64); { static const uint32_t FV[4] = {CO_PARA____, CO_PARA___E, CO_PARA__AE, CO_PARA__A_}; g[i].flags = FV[c.t.below(4)]; g[i].en = (g[i].flags & CO_PARA___E) != 0; } g[i].type = 1 + (int)c.t.below(2); g[i].off = off; off += g[i].size + c.t.below(3);
     g[i].ram = s.alloc(g[i].size, "para-ram"); g[i].def = s.alloc(g[i].size, "para-default", false);
     for (int k = 0; k < g[i].size; k++) { g[i].ram[k] = (uint8_t)iv.next(); g[i].def[k] = (uint8_t)(0xD0 + i); }
   }
-  g[0].size = 1; g[0].en = true; g[0].type = CO_RESET_NODE; g[0].off = off; g[0].ram = s.alloc(1, "para-all"); g[0].def = nullptr; off += 1;
+  g[0].size = 1; g[0].en = true; g[0].flags = CO_PARA___E; g[0].type = CO_RESET_NODE; g[0].off = off; g[0].ram = s.alloc(1, "para-all"); g[0].def = nullptr; off += 1;
   for (int i = 0; i <= ng; i++) {
     CO_PARA *p = (CO_PARA *)s.alloc(sizeof(CO_PARA), "para-ctl", false);
-    p->Offset = g[i].off; p->Size = g[i].size; p->Start = g[i].ram; p->Default = g[i].def; p->Type = (CO_NMT_RESET)g[i].type; p->Ident = 0; p->Value = g[i].en ? CO_PARA___E : 0; g[i].pg = p;
+    p->Offset = g[i].off; p->Size = g[i].size; p->Start = g[i].ram; p->Default = g[i].def; p->Type = (CO_NMT_RESET)g[i].type; p->Ident = 0; p->Value = g[i].flags; g[i].pg = p;
     s.add(CO_KEY(0x1010, i + 1, CO_OBJ_____RW), CO_TPARA_STORE, (CO_DATA)p);
     s.add(CO_KEY(0x1011, i + 1, CO_OBJ_____RW), CO_TPARA_RESTORE, (CO_DATA)p);
   }
@@ -132,7 +132,7 @@ void case_faultenum(Ctx &c) {
 
 Registrar reg(Prop{
     "C17",
-    "Cases: 1..4 parameter groups (size 1..64, non-overlapping NVM offsets with gaps, reset type node/communication, store-on-command enabled or not) behind 1010h/1011h sub-indices 2..n+1 plus the 'all' sub-index 1, random RAM and NVM images; histories of RAM modifications, SDO writes to 1010h/1011h with right and wrong signatures, restarts (RAM lost, NVM kept), NMT reset node/communication and reads. "
+    "Cases: 1..4 parameter groups (size 1..64, non-overlapping NVM offsets with gaps, reset type node/communication, enable flags from {disabled, on command, autonomously, both}: store-on-command is bit 0) behind 1010h/1011h sub-indices 2..n+1 plus the 'all' sub-index 1, random RAM and NVM images; histories of RAM modifications, SDO writes to 1010h/1011h with right and wrong signatures, restarts (RAM lost, NVM kept), NMT reset node/communication and reads. "
     "Mode fault-enum: each generated history of <= 12 (24) ops is first run without fault to count its NVM driver calls N and is then re-run once for EVERY fault position k = 1..N (k-th NVM call returns a short count); mode random: longer histories with a random fault position. "
     "Oracle: reference model of RAM, NVM and verdicts: 'save' writes exactly the addressed enabled groups (byte-exact NVM compare), 'load' calls COParaDefault for exactly those, other values refused with RAM and NVM byte-identical, after restart/reset the groups of the right type equal the last successfully stored image, a short count yields an SDO abort (store) or a node error (load); in the fault step itself only the error signal is required. "
     "Non-trivial: a successful store followed by a restart/reset, or a fault position that was hit. evaluations counts generated histories; every fault-enum history additionally executes N faulted replays (class fault-position-executed). Distinct = distinct decoded choice sequence.",
